@@ -24,6 +24,8 @@ EXTENDS TransformChain, Json
 
 CONSTANTS MaxDim,      \* start references have at most this many dimensions
           MaxLen,      \* number of child / edge items appended to the (optional) root
+          LongDim,     \* start references of at most LongDim dimensions get chains of up to LongLen items
+          LongLen,
           MaxRounds,   \* 0: rewrite built chains only; 1: also rewrite results once more
           WrongSwap    \* spec mutant: FALSE, or TRUE to corrupt one entry of the swap rule
 
@@ -54,10 +56,11 @@ Init == /\ ref0 \in StartRefs
         /\ map0 = IdMap(0)
 
 Built == Len(SelectSeq(chain, LAMBDA it : it.t # "X"))
-AddChild == /\ pc = "build" /\ round = 0 /\ Built < MaxLen
+LenBound == IF TcSum(ref0) <= LongDim /\ LongLen > MaxLen THEN LongLen ELSE MaxLen
+AddChild == /\ pc = "build" /\ round = 0 /\ Built < LenBound
             /\ \E it \in ChildItems(cur) : chain' = Append(chain, it)
             /\ UNCHANGED <<ref0, cur, pc, alg, nd, pre, items, post, p, steps, round, map0>>
-AddEdge == /\ pc = "build" /\ round = 0 /\ Built < MaxLen /\ TcSum(cur) >= 1
+AddEdge == /\ pc = "build" /\ round = 0 /\ Built < LenBound /\ TcSum(cur) >= 1
            /\ \E it \in EdgeItems(cur) : chain' = Append(chain, it) /\ cur' = EdgeFromRef(cur, EdgeFactor(it))
            /\ UNCHANGED <<ref0, pc, alg, nd, pre, items, post, p, steps, round, map0>>
 
@@ -100,8 +103,10 @@ UpperSkip == /\ pc = "upper" /\ UpperGo(items, p) /\ SwapUp(items[p - 1], items[
 UpperExit == /\ pc = "upper" /\ ~UpperGo(items, p)
              /\ pc' = "done"
              /\ UNCHANGED <<ref0, chain, cur, alg, nd, pre, items, post, p, steps, round, map0>>
-\* feed the result to another rewriting
+\* feed the result to another rewriting; only results with ScaledUpdim / Identity items are new inputs
+\* (all other results are chains of child / edge items, which are inputs of this machine anyway)
 Refeed == /\ pc = "done" /\ round < MaxRounds /\ Whole # chain
+          /\ \E k \in 1..Len(Whole) : Whole[k].t \in {"SU", "I", "T2"} /\ (Whole[k].t = "T2" => Whole[k].s[1].t = "SU")
           /\ chain' = Whole /\ round' = round + 1 /\ pc' = "build"
           /\ alg' = "none" /\ nd' = 0 /\ pre' = <<>> /\ items' = <<>> /\ post' = <<>> /\ p' = 0 /\ steps' = 0
           /\ UNCHANGED <<ref0, cur, map0>>
